@@ -80,9 +80,11 @@ extern "C" int LLVMFuzzerTestOneInput(const uint8_t* data, size_t size) {
       fz::violation("lexer: token extends past the end of the buffer");
     if (tok.start < prevEnd)
       fz::violation("lexer: token overlaps the previous token");
-    if (!gapIsSkippable(prevEnd, tok.start))
-      fz::violation("lexer: bytes between tokens are not blanks or $-newline continuations (%s before %s)",
-                    "gap", tok.getKindName());
+    if (!gapIsSkippable(prevEnd, tok.start)) {
+      fprintf(stderr, "gap of %zu bytes at offset %zu before a %s token\n", (size_t)(tok.start - prevEnd), (size_t)(prevEnd - begin),
+              tok.getKindName());
+      fz::violation("lexer: bytes between tokens are not blanks or $-newline continuations");
+    }
     fz::touch(tok.start, tok.length);
     if (tok.tokenKind == Token::Kind::EndOfFile) {
       if (tok.start != end)
